@@ -207,6 +207,10 @@ def check(run):
                     run.check(through, 'R10.order', cm, 'path [%s]' % conds, 'this path through compose returns without taking the gates of the other circuit one by one, '
                               'and its condition never looks at what the other circuit contains')
                 E_.check_no_capture(run, eff, cm)
+    # rotation gates (what diagonalize / SBRG / user code feed to take) sit on the qubits of their generator's support
+    from .C18 import rotation_gate_rule
+    for crel_ in (K.PY_C, K.TC_C):
+        rotation_gate_rule(run, repo, eff, crel_)
     K.mask_function(run, repo, K.PY_U)
     K.mask_function(run, repo, K.TC_U)
     entries = []
